@@ -273,9 +273,22 @@ def run(prog: Program, rep, thorough: bool) -> None:
         rep.fail('C06.T3', umod.path, get_in.node.lineno, get_in.qualname, 'get_in',
                  f'get_in returns {out!r}, not from_raw(self._value, units) = {want!r}')
     rshift = prog.find_method(dist, '__rshift__')
-    if rshift is not get_in:
-        rep.fail('C06.T3', umod.path, (rshift or get_in).node.lineno, 'AbstractDimension', '__rshift__',
-                 '`>>` no longer resolves to get_in')
+    if rshift is None:
+        rep.fail('C06.T3', umod.path, get_in.node.lineno, 'AbstractDimension', '__rshift__',
+                 '`>>` is no longer defined on a quantity')
+    elif rshift is not get_in:
+        # a method of its own: judged like get_in, by what it returns
+        st3 = State()
+        q3 = ev.new_inst(st3, dist, {'_value': S('raw'), '_defined_units': u})
+        try:
+            out3, st3 = ev.call_value(rshift, [u2], self_val=q3, st=st3)
+        except Undecided as exc:
+            raise AnalysisError(f'__rshift__: {exc}') from exc
+        if isinstance(out3, Scalar) and isinstance(want, Scalar) and out3.rf.equals(want.rf):
+            rep.ok('C06.T3', rshift.where, '`>>` returns from_raw(stored magnitude, u), as get_in does')
+        else:
+            rep.fail('C06.T3', umod.path, rshift.node.lineno, 'AbstractDimension', '__rshift__',
+                     f'`q >> u` returns {out3!r}, not from_raw(self._value, units) = {want!r}')
     rep.extra['exhaustive'] = True
     rep.extra['normal_forms'] = samples
     rep.extra['units'] = len(members)
